@@ -5,7 +5,38 @@ use crate::{
 
 use crate::parser::expression::{parse_call_like, parse_expression};
 
+/// Inline braces are parsed, validated and emitted recursively, and every level
+/// adds about three levels of nesting to the compiled JSON, which the runtime's
+/// loader only reads down to 128 levels.
+const MAX_INLINE_NESTING: usize = 32;
+
+fn inline_nesting(content: &str) -> usize {
+    let mut depth = 0usize;
+    let mut max_depth = 0usize;
+    let mut chars = content.chars();
+    while let Some(ch) = chars.next() {
+        match ch {
+            '\\' => {
+                chars.next();
+            }
+            '{' => {
+                depth += 1;
+                max_depth = max_depth.max(depth);
+            }
+            '}' => depth = depth.saturating_sub(1),
+            _ => {}
+        }
+    }
+    max_depth
+}
+
 pub fn tokenize_inline_content(content: &str) -> Result<Vec<Node>, CompilerError> {
+    if inline_nesting(content) > MAX_INLINE_NESTING {
+        return Err(CompilerError::invalid_source(format!(
+            "inline braces are nested too deeply (more than {MAX_INLINE_NESTING} levels)"
+        )));
+    }
+
     let mut nodes = Vec::new();
     let mut text = String::new();
     let mut chars = content.char_indices().peekable();
